@@ -39,6 +39,7 @@ class Plan(object):
         self.cleanup_seq = 0
         self.run_index = int(program.get("run_index", 0))
         self.registered_cleanups = []   # (id, owner-layer)
+        self.ran_scenarios = []  # Scenario objects handed to before_scenario (the objects that RAN)
 
 
 _EXC = {"Exception": RuntimeError, "AssertionError": AssertionError, "KeyboardInterrupt": KeyboardInterrupt}
@@ -67,6 +68,8 @@ def make_hooks(plan):
                 ident = ""
             k = len(plan.hooks)
             plan.hooks.append((name, ident))
+            if name == "before_scenario":
+                plan.ran_scenarios.append(args[0])
             for obs in plan.observers:
                 obs("hook", name, context, args[0] if args else None)
             for c in plan.hook_cleanups.get(k, ()):
@@ -403,6 +406,7 @@ def run_program(program, formatters=None, reporters=None, features=None, config=
     result.registered_cleanups = plan.registered_cleanups
     result.cleanup_pos = plan.cleanup_pos
     result.notes = plan.notes
+    result.ran_scenarios = plan.ran_scenarios
     result.runner = runner
     result.config = config
     result.plan = plan
